@@ -603,6 +603,9 @@ func (e *Engine) unmarshalJSON(j *JSON, cell *Value, st *types.Struct, site ssa.
 			if handled {
 				continue
 			}
+			if e.discardUnknown {
+				continue
+			}
 			return e.errorf("proto: unknown field %q", k)
 		}
 		if seen[fd.goIndex] {
@@ -877,6 +880,23 @@ func init() {
 		return unmarshalJ(e, a[0], a[1], s)
 	})
 	reg("("+pj+".UnmarshalOptions).Unmarshal", func(e *Engine, fn *ssa.Function, a []Value, s ssa.Instruction) Value {
+		// options honoured by the model: DiscardUnknown (unknown keys are skipped instead of rejected)
+		if st, ok := fn.Signature.Recv().Type().Underlying().(*types.Struct); ok {
+			if opts, ok := a[0].(Struct); ok {
+				for i := 0; i < st.NumFields(); i++ {
+					if st.Field(i).Name() == "DiscardUnknown" {
+						if t, ok := opts[i].(*Term); ok {
+							if !t.Const {
+								e.abort("unsupported", "protojson.UnmarshalOptions.DiscardUnknown must be a constant")
+							}
+							old := e.discardUnknown
+							e.discardUnknown = t.BVal
+							defer func() { e.discardUnknown = old }()
+						}
+					}
+				}
+			}
+		}
 		return unmarshalJ(e, a[1], a[2], s)
 	})
 	reg(pp+".Marshal", func(e *Engine, fn *ssa.Function, a []Value, s ssa.Instruction) Value {
